@@ -35,7 +35,7 @@ ASSUMPTIONS = ["-h/-SPLITBYTE only for sources without \\{", "sources mentioning
 REPORT_OPTS = [["-L"], ["-l"], ["-u"], ["-C"], ["-s"], ["-I"], ["-g", "MAP"], ["-g", "NOICE"], ["-g", "ATMEL"],
                ["-t", "0"], ["-t", "127"], ["-t", "5"], ["-x"], ["-x", "-x"], ["-n"], ["-A"], ["-r"], ["-gnuerrors"],
                ["-listradix", "2"], ["-listradix", "8"], ["-listradix", "10"], ["-listradix", "36"], ["-P"], ["-M"],
-               ["-E", "!1"], ["-E", "err.log"], ["-E", "!2"]]
+               ["-E", "!1"], ["-E", "err.log"], ["-E", "!2"], ["-L", "-olist", "/w/out/other.lst"], ["-noquiet"]]
 HEX_OPTS = [["-h"], ["-splitbyte", "."]]
 DATE_RE = re.compile(rb"\d{1,2}[/.]\d{1,2}[/.]\d{2,4}|\d{1,2}:\d{2}:\d{2}")
 
@@ -106,6 +106,7 @@ def make_scenario(b, rng, ref=False, force=None):
     dims = []
     opts = []
     groups = []
+    noquiet = False
     env = {"LANG": "C"}
     sc = dict(cwd="/w/t", dirs=["/w", "/w/t", "/w/out"], clock=946684800, step_us=1000, fill=0xA5, heap_pad=0, stdout_kind=1,
               max_events=1400000, cpu=60)
@@ -136,6 +137,10 @@ def make_scenario(b, rng, ref=False, force=None):
             if sel:
                 dims.append("report-opts")
             groups = sel
+            if ["-noquiet"] in sel:
+                sel.remove(["-noquiet"])
+                dims.append("not-quiet")
+                noquiet = True
             for o in sel:
                 opts += o
         # option placement
@@ -210,7 +215,7 @@ def make_scenario(b, rng, ref=False, force=None):
             env["ASL_VERIF_CODEBUF"] = str(rng.choice([1, 2, 3, 7, 64, 511, 513, 4096]))
             dims.append("codebuf")
     sc["env"] = env
-    sc["argv"] = list(b["flags"]) + ["-q"] + inc + opts + [src_arg, "-o", out_p, "-shareout", out_p[:-2] + ".h"]
+    sc["argv"] = list(b["flags"]) + ([] if noquiet else ["-q"]) + inc + opts + [src_arg, "-o", out_p, "-shareout", out_p[:-2] + ".h"]
     d = dict(b["disk"])
     d.update(sc.get("disk", {}))
     sc["disk"] = d
